@@ -193,11 +193,14 @@ def loader_tolerance(ctx) -> None:
 
 
 def run(ctx) -> None:
+    # the order in which a walk meets sibling branches is what positions are derived from (persistent states, copied wiring)
+    shared.r_lifo(ctx, ctx.prog.functions([m for m in ctx.prog.modules if m.startswith(('forml.flow._graph', 'forml.flow._suite', 'forml.flow._code'))]))
     from . import C08
     loader_tolerance(ctx)
     from . import C05 as _C05
 
     _C05.key_paths(ctx)
+    _C05.r_cache(ctx)  # the generation a run commits follows the one listed *now*: no memoised listing anywhere on the way
 
     C08.eqhash_agreement(ctx, ('forml.io.asset',), floor=3)
     drivers(ctx)
